@@ -34,8 +34,9 @@ PROPS = {
         ],
     },
     "C05": {
-        "lean_modules": ["DocsModel.Props.C05", "DocsModel.Props.C05Refine"],
+        "lean_modules": ["DocsModel.Props.C05", "DocsModel.Props.C05Refine", "DocsModel.Props.Node"],
         "trusted_base": COMMON_TRUST + [
+            "whole-node component (harness/src/apinode.rs, Model/Node.lean, Props/Node.lean): one real in-memory docs node (DocsApi/Doc -> RpcActor -> Engine and live actor -> store actor -> store) driven by one sequential client; every handler of src/api/actor.rs that needs no second node, Engine::{start_sync, leave, subscribe}, the default author, and the protection callback of gc_protect_task are modelled by hand and compared on every run; the theorems of Props/Node.lean lift this property to every history of client requests (node_getMany_eq_spec, node_policy_persists, node_setPolicy, node_peers_run, node_peers_eq_mru5, node_drop_erases, node_drop_frames, node_hashes_exact, node_openInv_reachable, write_events_exact, sub_survives); not modelled there: gossip and connections (no second node), blob import/export, iroh-gossip, irpc delivery (in-process channel, requests handled in order)",
             "redb tables are modelled as sorted lists whose range() is the in-order filter by the bounds (element-wise tuple comparison, lexicographic byte strings); redb itself is not verified",
         ],
         "assumptions": [
@@ -74,18 +75,21 @@ PROPS = {
         ],
     },
     "C15": {
-        "lean_modules": ["DocsModel.Props.C15"],
-        "trusted_base": COMMON_TRUST + ["redb tables are modelled as sorted lists whose range() is the in-order filter by the bounds (element-wise tuple comparison, lexicographic byte strings); redb itself is not verified",],
+        "lean_modules": ["DocsModel.Props.C15", "DocsModel.Props.Node"],
+        "trusted_base": COMMON_TRUST + [
+            "whole-node component (harness/src/apinode.rs, Model/Node.lean, Props/Node.lean): one real in-memory docs node (DocsApi/Doc -> RpcActor -> Engine and live actor -> store actor -> store) driven by one sequential client; every handler of src/api/actor.rs that needs no second node, Engine::{start_sync, leave, subscribe}, the default author, and the protection callback of gc_protect_task are modelled by hand and compared on every run; the theorems of Props/Node.lean lift this property to every history of client requests (node_getMany_eq_spec, node_policy_persists, node_setPolicy, node_peers_run, node_peers_eq_mru5, node_drop_erases, node_drop_frames, node_hashes_exact, node_openInv_reachable, write_events_exact, sub_survives); not modelled there: gossip and connections (no second node), blob import/export, iroh-gossip, irpc delivery (in-process channel, requests handled in order)","redb tables are modelled as sorted lists whose range() is the in-order filter by the bounds (element-wise tuple comparison, lexicographic byte strings); redb itself is not verified",],
         "assumptions": ["UTF-8 validity of filter bytes is decided outside the model (passed as a flag); ':' is ASCII so str::split_once is a byte-level split"],
     },
     "C16": {
-        "lean_modules": ["DocsModel.Props.C16", "DocsModel.Props.C14"],
-        "trusted_base": COMMON_TRUST + ["redb tables are modelled as sorted lists whose range() is the in-order filter by the bounds (element-wise tuple comparison, lexicographic byte strings); redb itself is not verified",],
+        "lean_modules": ["DocsModel.Props.C16", "DocsModel.Props.C14", "DocsModel.Props.Node"],
+        "trusted_base": COMMON_TRUST + [
+            "whole-node component (harness/src/apinode.rs, Model/Node.lean, Props/Node.lean): one real in-memory docs node (DocsApi/Doc -> RpcActor -> Engine and live actor -> store actor -> store) driven by one sequential client; every handler of src/api/actor.rs that needs no second node, Engine::{start_sync, leave, subscribe}, the default author, and the protection callback of gc_protect_task are modelled by hand and compared on every run; the theorems of Props/Node.lean lift this property to every history of client requests (node_getMany_eq_spec, node_policy_persists, node_setPolicy, node_peers_run, node_peers_eq_mru5, node_drop_erases, node_drop_frames, node_hashes_exact, node_openInv_reachable, write_events_exact, sub_survives); not modelled there: gossip and connections (no second node), blob import/export, iroh-gossip, irpc delivery (in-process channel, requests handled in order)","redb tables are modelled as sorted lists whose range() is the in-order filter by the bounds (element-wise tuple comparison, lexicographic byte strings); redb itself is not verified",],
         "assumptions": ["all namespace and author ids are 32 bytes (Wf32)"],
     },
     "C17": {
-        "lean_modules": ["DocsModel.Props.C17"],
-        "trusted_base": COMMON_TRUST + ["redb tables are modelled as sorted lists whose range() is the in-order filter by the bounds (element-wise tuple comparison, lexicographic byte strings); redb itself is not verified",
+        "lean_modules": ["DocsModel.Props.C17", "DocsModel.Props.Node"],
+        "trusted_base": COMMON_TRUST + [
+            "whole-node component (harness/src/apinode.rs, Model/Node.lean, Props/Node.lean): one real in-memory docs node (DocsApi/Doc -> RpcActor -> Engine and live actor -> store actor -> store) driven by one sequential client; every handler of src/api/actor.rs that needs no second node, Engine::{start_sync, leave, subscribe}, the default author, and the protection callback of gc_protect_task are modelled by hand and compared on every run; the theorems of Props/Node.lean lift this property to every history of client requests (node_getMany_eq_spec, node_policy_persists, node_setPolicy, node_peers_run, node_peers_eq_mru5, node_drop_erases, node_drop_frames, node_hashes_exact, node_openInv_reachable, write_events_exact, sub_survives); not modelled there: gossip and connections (no second node), blob import/export, iroh-gossip, irpc delivery (in-process channel, requests handled in order)","redb tables are modelled as sorted lists whose range() is the in-order filter by the bounds (element-wise tuple comparison, lexicographic byte strings); redb itself is not verified",
             "hook H1 (clock override) supplies the registration times"],
         "assumptions": ["registration times are strictly increasing (two registrations in the same nanosecond are the excluded point)"],
     },
@@ -135,8 +139,9 @@ PROPS = {
         ],
     },
     "C12": {
-        "lean_modules": ["DocsModel.Props.C12"],
+        "lean_modules": ["DocsModel.Props.C12", "DocsModel.Props.Node"],
         "trusted_base": COMMON_TRUST + [
+            "whole-node component (harness/src/apinode.rs, Model/Node.lean, Props/Node.lean): one real in-memory docs node (DocsApi/Doc -> RpcActor -> Engine and live actor -> store actor -> store) driven by one sequential client; every handler of src/api/actor.rs that needs no second node, Engine::{start_sync, leave, subscribe}, the default author, and the protection callback of gc_protect_task are modelled by hand and compared on every run; the theorems of Props/Node.lean lift this property to every history of client requests (node_getMany_eq_spec, node_policy_persists, node_setPolicy, node_peers_run, node_peers_eq_mru5, node_drop_erases, node_drop_frames, node_hashes_exact, node_openInv_reachable, write_events_exact, sub_survives); not modelled there: gossip and connections (no second node), blob import/export, iroh-gossip, irpc delivery (in-process channel, requests handled in order)",
             "async_channel delivery (an accepted send is received once, in order) and the store actor's sequential processing are trusted",
             "hook H1 (process-global clock: the actor runs on its own thread)",
         ],
@@ -146,8 +151,9 @@ PROPS = {
         ],
     },
     "C14": {
-        "lean_modules": ["DocsModel.Props.C14"],
+        "lean_modules": ["DocsModel.Props.C14", "DocsModel.Props.Node"],
         "trusted_base": COMMON_TRUST + [
+            "whole-node component (harness/src/apinode.rs, Model/Node.lean, Props/Node.lean): one real in-memory docs node (DocsApi/Doc -> RpcActor -> Engine and live actor -> store actor -> store) driven by one sequential client; every handler of src/api/actor.rs that needs no second node, Engine::{start_sync, leave, subscribe}, the default author, and the protection callback of gc_protect_task are modelled by hand and compared on every run; the theorems of Props/Node.lean lift this property to every history of client requests (node_getMany_eq_spec, node_policy_persists, node_setPolicy, node_peers_run, node_peers_eq_mru5, node_drop_erases, node_drop_frames, node_hashes_exact, node_openInv_reachable, write_events_exact, sub_survives); not modelled there: gossip and connections (no second node), blob import/export, iroh-gossip, irpc delivery (in-process channel, requests handled in order)",
             "async_channel is FIFO with a single consumer, so the order in which requests enter the queue (recorded at the send site on a single-threaded runtime) is the order in which the actor handles them",
             "hook H1 (process-global clock, held constant so that outcomes depend on queue order only)",
         ],
